@@ -133,13 +133,18 @@ func (s *Stats) Publish(r *evid.Run) {
 
 // exploreChoice runs scenario name under the explorer and folds the result into r.
 func exploreChoice(r *evid.Run, name string, bound int, dl time.Time) *choice.Result {
+	return exploreChoiceOpts(r, name, bound, dl, 0)
+}
+
+// exploreChoiceOpts: workers = number of exploring goroutines (0 = GOMAXPROCS).
+func exploreChoiceOpts(r *evid.Run, name string, bound int, dl time.Time, workers int) *choice.Result {
 	mk, ok := Scenarios[name]
 	if !ok {
 		panic("unknown scenario " + name)
 	}
 	scen, newLocal := mk()
 	t0 := time.Now()
-	res := choice.Explore(scen, choice.Options{Bound: bound, Deadline: dl, NewLocal: newLocal})
+	res := choice.Explore(scen, choice.Options{Bound: bound, Deadline: dl, NewLocal: newLocal, Workers: workers})
 	r.Add("evaluations", res.Executions)
 	r.Add("traces_validated_against_impl", res.Executions)
 	r.Add("choice_points", res.Points)
